@@ -86,6 +86,9 @@ def battery():
         # the same field name from two models (prefixed aliases) next to a field whose OWN name is one of those aliases
         dict(metrics=["orders.n"], dimensions=["orders.kind", "customers.kind", "orders.customers_kind"]),
         dict(metrics=["orders.n", "customers.n"], dimensions=["orders.kind", "customers.orders_n", "stores.kind"]),
+        # the multi-fact form (metrics of two models across a many_to_one hop) with row filters on several models, metric models and others
+        dict(metrics=["orders.total", "customers.n"], dimensions=["regions.kind"], filters=["orders.status = 'a'", "regions.kind = 'n'", "stores.kind = 'k'", "customers.status = 'c'", "items.kind = 'z'"]),
+        dict(metrics=["returns.n", "orders.n"], dimensions=[], filters=["stores.status = 's' AND customers.kind = 'c'", "returns.kind = 'x'"], segments=["orders.done"]),
     ]
     return layer, queries
 
